@@ -21,7 +21,9 @@ MUTATORS = {'append', 'pop', 'insert', 'remove', 'clear', 'extend', 'add', 'disc
 FILE_METHODS = {'write', 'seek', 'read', 'truncate'}
 PURE_METHODS = {'get', 'keys', 'items', 'values', 'getfieldval', 'tell', 'format', 'join', 'match', 'fullmatch',
                 'total_seconds', 'copy', 'index', 'encode', 'decode', 'hex', 'getvalue', 'startswith', 'lower',
-                'guess_payload_class', 'getpeername', 'fileno', 'now', 'ip_address'}
+                'guess_payload_class', 'getpeername', 'fileno', 'now', 'ip_address', 'hexlify', 'getLogger',
+                'get_extension_for_oid', 'get_values_for_type', 'getpeercert', 'load_der_x509_certificate',
+                'default_backend', 'match_hostname', 'cipher', 'timedelta', 'dumps', 'loads', 'build', 'show'}
 PURE_FUNCS = {'len', 'min', 'max', 'int', 'str', 'bool', 'bytes', 'bytearray', 'tuple', 'list', 'set', 'dict', 'sorted',
               'enumerate', 'range', 'isinstance', 'repr', 'type', 'abs', 'id', 'print', 'getattr'}
 
@@ -364,6 +366,11 @@ class Engine(CoreMixin, ExprMixin, StmtMixin, CallMixin, BuiltinMixin):
                 return
             if f.id in self.frame.locals or f.id[0].isupper():
                 return
+            fd = self.frame.fdef
+            if fd is not None and any(isinstance(x, ast.Name) and isinstance(x.ctx, ast.Store) and x.id == f.id
+                                      for x in ast.walk(fd)):
+                # a local bound to a class / callable (e.g. msgcls = messages.MessageHead): construction
+                return
             raise Unsupported('write set: unknown function %s' % f.id)
         raise Unsupported('write set: call form')
 
@@ -413,6 +420,43 @@ class Engine(CoreMixin, ExprMixin, StmtMixin, CallMixin, BuiltinMixin):
             self._scan_writes(fd.body, set(), fields, ghosts, seen)
         elif kind == 'signal':
             ghosts.update(self.spec.notes.get('signal_ghosts', ['signals']))
+
+    def minimize_terms(self):
+        '''Preferences for candidate counter-models, most wanted first: empty pre-state collections
+        (ghost values, then the fields of self and of the arguments that are objects).'''
+        from . import lists as L
+        out = []
+
+        def prefer(t, z):
+            if isinstance(t, TOpt):
+                return
+            if isinstance(t, TList):
+                out.append(L.l_len(t, z) == 0)
+                out.append(L.l_len(t, z) <= 1)
+                out.append(L.l_len(t, z) <= 2)
+            elif isinstance(t, TSet):
+                out.append(z == z3.K(t.elem.sort(), z3.BoolVal(False)))
+            elif isinstance(t, TDict):
+                out.append(t.dom(z) == z3.K(t.k.sort(), z3.BoolVal(False)))
+            elif t is TBytes:
+                out.append(z3.Length(z) == 0)
+                out.append(z3.Length(z) <= 4)
+
+        roots = []
+        for name, v in self.model_watch:
+            if v.z is None:
+                continue
+            if name.startswith('ghost.'):
+                prefer(v.t, v.z)
+            elif isinstance(v.t, TRef):
+                roots.append(v)
+        for v in roots:
+            for sc in self.spec.schema_chain(v.t.cls):
+                for fn, ft in sc.fields.items():
+                    ent = self.h0.get((sc.name, fn))
+                    if ent is not None:
+                        prefer(ft, z3.Select(ent[0], v.z))
+        return out
 
     def structured_model(self, m):
         '''The pre-state of a counter-model as plain data: arguments, ghost values, and the
